@@ -124,6 +124,7 @@ CHECKS = {
             "numbers: <= K bytes that R5 accepts as one numeric literal; outside: `digits.` without fraction digits, leading-zero/legacy-octal forms, exponents of three or more digits (range errors), more than K characters",
             "strconv.ParseInt / ParseFloat are replaced by syntax models of their error result (differentially tested against strconv at setup)",
             "the emitted literal is re-read by R2/R4 (independent of the lexer); JavaScript engines are not run",
+            "pairs: `x=<string of <= K1 ASCII bytes>;y=<backtick string of <= K2 ASCII bytes>;` and the reverse order, both values compared",
         ],
         "runs": [
             {"harnesses": [H + "ZZH7Strings"], "quick": {"K": 4}, "thorough": {"K": 5}},
@@ -133,6 +134,9 @@ CHECKS = {
             {"harnesses": [H + "ZZH7Strings"], "quick": {"K": 5, "prefix": 3}, "thorough": {"K": 7, "prefix": 3}},
             {"harnesses": [H + "ZZH7Templates"], "quick": {"K": 4}, "thorough": {"K": 5}},
             {"harnesses": [H + "ZZH7Numbers"], "quick": {"K": 6}, "thorough": {"K": 8}},
+            # two literals in one program (quoted string then backtick string, and the reverse): the content of one must not
+            # change how the output passes treat the other
+            {"harnesses": [H + "ZZH7Pair"], "quick": {"K1": 2, "K2": 2}, "thorough": {"K1": 3, "K2": 3}},
             # literal text through the writer-level pipeline: a multi-line backtick string (space before the line break)
             # next to comments, in every output configuration (token text of the output must equal the source literal)
             {"harnesses": [H + "ZZH1Behaviour"], "flags": VLQ_REDIRECT, "quick": {"budget": 0, "stmts": 2, "palette": 12, "palettemask": 513, "trivia": 1, "triviakinds": 5, "nofunc": 1}, "thorough": {"budget": 0, "stmts": 3, "palette": 12, "palettemask": 513, "trivia": 2, "triviakinds": 5, "nofunc": 1}},
